@@ -16,6 +16,10 @@ field menus x align_corners x dtype x batch size x argument forms. Sub-checks:
     bch-affine-error   |compose_svfs_k - log(exp(V) exp(U))| does not grow with k (exact, no discretisation error)
     bch-smooth-error   non-commuting smooth pairs: |exp(w_k) - exp(v) o exp(u)| does not grow with k beyond the
                        interpolation floor (exp and o evaluated by the float64 reference)
+    call-sequence      depth-2 model checking against hidden state: for every shape all ordered pairs [X, Y] of
+                       configurations (align_corners x dtype) of compose_flows and of compose_svfs, plus other-shape /
+                       logv / expv / lie_bracket predecessors, are called one after the other in ONE process and every
+                       call is judged by its closed form (a stateless API must not remember earlier calls)
     logv-roundtrip     |logv(expv(v)) - v| <= 0.5 A samples, err(A) <= 8 err(A/2) + 1e-4, and the errors under the
                        two conventions stay within a factor 1.5 (+1e-4) of each other
 """
@@ -59,7 +63,7 @@ MIN_OUTCOMES = {"quick": 8000, "thorough": 17000}
 MIN_SUB_TRACES = {
     "compose-affine": 1000, "compose-identity": 200, "compose-flag": 100, "bracket-antisym": 100,
     "bracket-bilinear": 500, "bch-commuting": 500, "bch-affine-series": 500, "bch-affine-error": 50,
-    "bch-smooth-error": 20, "logv-roundtrip": 100,
+    "bch-smooth-error": 20, "logv-roundtrip": 100, "call-sequence": 150,
 }
 
 C = 64.0
@@ -768,6 +772,119 @@ def case_logv(case) -> Result:
     return r
 
 
+
+# ---------------------------------------------------------------------------
+# call sequences: depth-2 model checking of the stateless API against hidden state
+SEQ_CFGS = [(ac, dt) for ac in (True, False) for dt in ("f32", "f64")]
+
+
+def _cfg_name(c):
+    s = c["op"] + "[" + ("ac=T" if c.get("ac", True) else "ac=F") + "," + c.get("dtype", "f32")
+    if c.get("other_shape"):
+        s += ",other-shape"
+    return s + "]"
+
+
+def seq_program(shape):
+    """Ordered call sequences [X, Y] on one shape (executed one after the other in ONE process, in this order)."""
+    shape = list(shape)
+    other = shape[:-1] + [shape[-1] + 1]
+    prog = []
+    cf = [{"op": "compose_flows", "ac": ac, "dtype": dt} for ac, dt in SEQ_CFGS]
+    sv = [{"op": "compose_svfs", "ac": ac, "dtype": dt} for ac, dt in SEQ_CFGS]
+    for x in cf:
+        for y in cf:
+            prog.append([x, y])
+    for x in sv:
+        for y in sv:
+            prog.append([x, y])
+    for ac in (True, False):
+        prog.append([{"op": "compose_flows", "ac": not ac, "dtype": "f32", "other_shape": other}, {"op": "compose_flows", "ac": ac, "dtype": "f32"}])
+        prog.append([{"op": "logv", "ac": not ac, "dtype": "f32"}, {"op": "compose_flows", "ac": ac, "dtype": "f32"}])
+        prog.append([{"op": "expv", "ac": not ac, "dtype": "f32"}, {"op": "compose_flows", "ac": ac, "dtype": "f32"}])
+        prog.append([{"op": "lie_bracket", "ac": not ac, "dtype": "f64"}, {"op": "compose_svfs", "ac": ac, "dtype": "f64"}])
+        prog.append([{"op": "compose_svfs", "ac": not ac, "dtype": "f32"}, {"op": "compose_flows", "ac": ac, "dtype": "f32"}])
+        prog.append([{"op": "compose_flows", "ac": not ac, "dtype": "f64"}, {"op": "logv", "ac": ac, "dtype": "f64"}, {"op": "compose_flows", "ac": ac, "dtype": "f64"}])
+    return prog
+
+
+def seq_call(cfg, shape, seed):
+    """Execute one call of a sequence and judge it by the reference of its own sub-check.
+    Returns (status, detail, outcome-hash): status in {"ok", "unjudged", "raises=<Type>", "shape", "mismatch"}."""
+    from deepali.core.flow import compose_flows, expv, lie_bracket, logv
+
+    shape = tuple(cfg.get("other_shape") or shape)
+    D = len(shape)
+    ac, dtype, op = cfg.get("ac", True), cfg.get("dtype", "f32"), cfg["op"]
+    U, V = disp_matrix("rot", D, seed), disp_matrix("shear", D, seed)
+    u, v = fa.affine_field(U, shape, ac)[None], fa.affine_field(V, shape, ac)[None]
+    tu, tv = _t(u, dtype), _t(v, dtype)
+    if op == "compose_flows":
+        st, out = guarded(lambda: compose_flows(tu, tv, align_corners=ac))
+        if st == "raises":
+            return "raises=" + type(out).__name__, exc_text(out), 0
+        if not _ok_tensor(out, u.shape):
+            return "shape", f"{type(out).__name__} {getattr(out, 'shape', None)}", 0
+        o = _np(out)[0]
+        if not fa.maps_hull_into_itself(np.eye(D + 1) + U, fa.half_widths(shape, ac)):
+            return "unjudged", "", h64(o)
+        exp = fa.affine_field(fa.compose_affine(U, V), shape, ac)
+        tol = C * EPS[dtype] * (fa.norm_inf(U) + 3.0 * fa.norm_inf(V))
+        err = float(np.abs(o - exp).max())
+        if not np.isfinite(err) or err > tol:
+            return "mismatch", f"max |compose_flows(u,v) - (U+V(I+U))x| = {err:.3e} > tol {tol:.2e}", h64(o)
+        return "ok", "", h64(o)
+    if op == "compose_svfs":
+        st, out = guarded(_svfs, tu, tv, 3, "default", sample_spacing(shape, ac))
+        if st == "raises":
+            return "raises=" + type(out).__name__, exc_text(out), 0
+        if not _ok_tensor(out, u.shape):
+            return "shape", f"{type(out).__name__} {getattr(out, 'shape', None)}", 0
+        o = _np(out)[0]
+        exp = fa.affine_field(fa.bch_series(U, V, 3), shape, ac)
+        tol = C * affine_noise(U, V, 3, shape, D, dtype, not ac)
+        err = float(np.abs(o - exp).max())
+        if not np.isfinite(err) or err > tol:
+            return "mismatch", f"max |compose_svfs(u,v,3) - documented BCH partial sum| = {err:.3e} > tol {tol:.2e}", h64(o)
+        return "ok", "", h64(o)
+    # state-touching calls whose own result is judged elsewhere
+    g = _t(fa.generic_field(shape, ac, seed, 0.02)[None], dtype)
+    if op == "logv":
+        st, out = guarded(lambda: logv(g, num_iters=2, align_corners=ac))
+    elif op == "expv":
+        st, out = guarded(lambda: expv(g, steps=3, align_corners=ac))
+    elif op == "lie_bracket":
+        st, out = guarded(lambda: lie_bracket(tv, tu))
+    else:
+        raise KeyError(op)
+    if st == "raises":
+        return "raises=" + type(out).__name__, exc_text(out), 0
+    return "unjudged", "", h64(_np(out)) if isinstance(out, torch.Tensor) else 0
+
+
+def case_call_sequence(case) -> Result:
+    """Every sequence of the program is executed in order in this process; every call that has a reference is
+    judged (a stateless API must give the fresh-process answer whatever was called before)."""
+    r = Result()
+    shape = tuple(case["shape"])
+    for seq in case["program"]:
+        names = [_cfg_name(c) for c in seq]
+        bad = False
+        for i, cfg in enumerate(seq):
+            st, detail, oh = seq_call(cfg, shape, case["seed"])
+            r.trans += 1
+            if oh:
+                r.outcomes.append(oh)
+            if st in ("ok", "unjudged"):
+                continue
+            bad = True
+            r.bad(f"C13/call-sequence/{'-then-'.join(names)}/call={i + 1}/{st}", f"{detail} (shape {shape}; call {i + 1} of the sequence {names}, earlier sequences of the program executed before it in the same process)")
+        r.judged += 1
+        if len({(c.get("ac", True), c.get("dtype"), c["op"]) for c in seq}) > 1 and not bad:
+            r.nontriv.append(h64("seq", case["shape"], names))
+    return r
+
+
 KINDS = {
     "compose-affine": case_compose_affine,
     "compose-identity": case_compose_identity,
@@ -779,6 +896,7 @@ KINDS = {
     "bch-affine-error": case_bch_affine_error,
     "bch-smooth-error": case_bch_smooth_error,
     "logv-roundtrip": case_logv,
+    "call-sequence": case_call_sequence,
 }
 
 AMPS = [0.1, 0.25, 0.5]
@@ -848,6 +966,8 @@ def cases_of(shard):
             for terms in range(6):
                 yield {**base, "which": which, "amp": amp, "iters": iters, "terms": terms, "N": 1}
         yield {**base, "which": which, "amp": amp, "iters": 3, "terms": 1, "N": 2}
+    elif kind == "call-sequence":
+        yield {**base, "program": seq_program(shard["shape"])}
     else:
         raise KeyError(kind)
 
@@ -859,6 +979,9 @@ def shards(tier: str, seed: int):
             for ac in (True, False):
                 for kind in ("compose-affine", "compose-identity", "bch-commuting", "bch-affine-series", "bch-affine-error"):
                     out.append({"tier": tier, "seed": seed, "kind": kind, "shape": list(shape), "ac": ac, "dtype": dtype})
+    for shape in affine_shapes(tier):
+        # one process per shape: all ordered pairs of configurations are called one after the other
+        out.append({"tier": tier, "seed": seed, "kind": "call-sequence", "shape": list(shape), "dtype": "mixed"})
     for shape in smooth_shapes(tier):
         for dtype in ("f32", "f64"):
             for ac in (True, False):
@@ -886,7 +1009,9 @@ def run_shard(shard) -> Acc:
         acc.trans(res.trans)
         for u in res.undef:
             acc.undef(u)
-        if res.judged or res.problems:
+        if case["kind"] == "call-sequence":
+            acc.trace("call-sequence", n=res.judged, depth=3)
+        elif res.judged or res.problems:
             acc.trace(case["kind"], depth=case.get("terms", 0) or 0)
         for o in res.outcomes:
             acc.outcome(o)
